@@ -202,3 +202,50 @@ func c03AllOps(directed bool) {
 
 func VerifC03_AllOpsBroadcast() { c03AllOps(false) }
 func VerifC03_AllOpsDirected()  { c03AllOps(true) }
+
+// "... a datagram that passes as S's but has a malformed field makes the call fail": a date or date-time field
+// of the reply that contains a non-decimal BCD nibble (the rest of the reply arbitrary), on the broadcast and on
+// the directed routes.  (Fields whose out-of-domain values come back as their zero value instead - impossible
+// calendar dates, HH:mm - are C02's subject.)
+func VerifC03_MalformedDateField() {
+	type fld struct {
+		op       string
+		off, len int
+	}
+	fields := []fld{
+		{"GetCardByID", 12, 4}, {"GetCardByID", 16, 4}, {"GetCardByIndex", 12, 4}, {"GetCardByIndex", 16, 4},
+		{"GetTime", 8, 7}, {"GetEvent", 20, 7}, {"GetTimeProfile", 9, 4}, {"GetTimeProfile", 13, 4}, {"GetStatus", 20, 7},
+	}
+	f := fields[nondetEnum("field", len(fields))]
+	var op vOp
+	for _, o := range vOps() {
+		if o.name == f.op {
+			op = o
+		}
+	}
+	verifZone(1)
+	id := nondetSerial("id")
+	m := nondetBytes("reply", 64)
+	verifAssume(m[0] == 0x17 && m[1] == op.fn && specGet32(m, 4) == id)
+	bad := false
+	for i := f.off; i < f.off+f.len; i++ {
+		if m[i]>>4 > 9 || m[i]&0x0f > 9 {
+			bad = true
+		}
+	}
+	verifAssume(bad)
+	u := vClient(nil)
+	switch nondetEnum("route", 3) {
+	case 0:
+		u.driver = &vDriver{seq: [][]byte{m}}
+	case 1:
+		u.driver = &vDriver{reply: m}
+		u.devices[id] = Device{DeviceID: id, Address: types.ControllerAddrFrom(netip.AddrFrom4([4]byte{192, 168, 1, 100}), 60000), Protocol: "udp"}
+	default:
+		u.driver = &vDriver{reply: m}
+		u.devices[id] = Device{DeviceID: id, Address: types.ControllerAddrFrom(netip.AddrFrom4([4]byte{192, 168, 1, 100}), 60000), Protocol: "tcp"}
+	}
+	ok, err := op.call(u, id)
+	verifAssert(!ok && err != nil, f.op+": a reply that passes as the controller's but has a non-decimal date field makes the call fail")
+	verifReach("c03.malformed")
+}
